@@ -33,12 +33,19 @@ SPEC = dict(
                 "tick evaluated subgraph by subgraph (runSchedule) for every partition whose flattened order is well formed; "
                 "instances for fold and for anti_join's negative side; "
                 "no_retraction_within_tick (a node's outputs are written once per tick and not touched by the rest of the tick) and "
-                "no_retraction_across_ticks (a longer history only appends outputs). Tie: ~105 compiled dfir_syntax! pipelines of "
+                "no_retraction_across_ticks (a longer history only appends outputs). Tie: ~200 compiled dfir_syntax! pipelines: 90 of "
                 "depth 0-6 (identity, map id, tee+dropped branch, union+empty source, partition/union and tee/filter/union diamonds) "
                 "in front of fold, reduce, sort, persist, unique, multiset_delta, fold_keyed, reduce_keyed, lattice_reduce and both "
-                "inputs of anti_join, difference, join, cross_join_multiset, zip, run tick by tick and diffed against the Lean "
-                "interpreter; oracle on the real code: the documented result recomputed directly from the raw source inputs, and "
-                "prefix-independence of earlier ticks' outputs."),
+                "inputs of anti_join, difference, join, cross_join_multiset, zip; 110 whose LAST stage(s) directly in front of the "
+                "blocking input port are the nodes eliminate_extra_unions_tees splices out (unary tee(), unary union() with elided "
+                "and with explicit [0] input port, chains of 2-3 of them) - every one-input operator above x 4 shapes, each port "
+                "([pos]/[neg], [0]/[1]) of anti_join, difference, join, cross_join, cross_join_multiset, zip x 4 shapes x every "
+                "persistence combination, both ports at once, and the same directly behind a named output port (partition [0]); "
+                "all run tick by tick and diffed against the Lean interpreter; oracles on the real code: the documented result "
+                "recomputed directly from the raw source inputs, prefix-independence of earlier ticks' outputs, and for every "
+                "operator input of every program that the partitioned graph of the real dfir_lang pipeline hands the operator the "
+                "producers in the order the program text connects them (computed by the corpus build script; a program whose "
+                "mis-wiring rustc could reject is replaced by a stub and reported instead of breaking the build)."),
     level_note=("The theorem is about the per-tick denotation (well-formedness = producers before consumers is a hypothesis, it is the "
                 "conclusion of C18); the generated tick closure (subgraph order, handoff buffers, eager drains in write_fn) is tied "
                 "by execution, not by proof. Singleton references (#var) are not in the model."),
